@@ -10,6 +10,13 @@
 3. Random histories recorded from the real PDF (integer weights with many zeros, dyadic r,
    element order as getElements() reports it) are validated by TLC against PDFContract.
 
+4. Histories with weights that are NOT exactly representable (0.1, 1/3, 1e-9 next to 1e12) are
+   recorded with fixed-point integer images of the weights and validated against the same
+   contract by ds/PDFApproxTrace.tla: "what sample returns is a surviving element" and "no
+   zero-weight element for 0 < r < 1" are checked exactly, the cumulative interval with the
+   rigorous rounding slack the recorder logs.  The spec reports findings per contract clause
+   (stable keys nonrep:<clause>).  Set VERIF_C12_NONREP=0 to skip this phase.
+
 Independent TLC runs / harness shards are run side by side in worker processes (each TLC run
 in its own process: vlib's metadir name is per pid).
 """
@@ -24,6 +31,7 @@ from vlib import Check, run_tlc, run_cmd, build_harness, Graph, validate_trace, 
 PID = "C12"
 SPEC = "ds/PDFTree"
 TRACE_SPEC = "ds/PDFContractTrace"
+APPROX_SPEC = "ds/PDFApproxTrace"
 
 
 def _cfg(name, weights, maxsize, dump):
@@ -143,7 +151,7 @@ def _job_trace(binary, i, variant, nops, seed):
         os.remove(tpath)
     rc, out, err = run_cmd([binary, "record", tpath, str(nops), variant], timeout=1200,
                            env={"VERIF_SEED": str(seed)})
-    r = {"i": i, "variant": variant, "path": tpath, "rc": rc, "out": out[-1500:], "err": err[-3000:]}
+    r = {"i": i, "variant": variant, "path": tpath, "rc": rc, "out": out[-1500:], "err": err[:3000]}
     if rc != 0:
         return r
     acc, prefix, res = validate_trace(TRACE_SPEC, tpath, timeout=3000)
@@ -151,11 +159,74 @@ def _job_trace(binary, i, variant, nops, seed):
     return r
 
 
+def _validate_collect(module, path, timeout=600):
+    """validate_trace + the JSON objects the trace spec printed (findings), whichever way this
+    version of vlib hands them over."""
+    found = []
+    try:
+        acc, prefix, res = validate_trace(module, path, timeout=timeout, json_sink=found.append)
+    except TypeError:
+        acc, prefix, res = validate_trace(module, path, timeout=timeout)
+    return acc, prefix, _dedupe(found or res.json)
+
+
+def _dedupe(findings):
+    """TLC may evaluate an action more than once per step, printing a finding again: one per trace line."""
+    seen, out = set(), []
+    for f in findings:
+        if f["line"] not in seen:
+            seen.add(f["line"])
+            out.append(f)
+    return sorted(out, key=lambda f: f["line"])
+
+
+def _job_nonrep(i, nops, seed):
+    # recorded WITHOUT sanitizers: an out-of-storage read inside sample() must come back as "the
+    # result is not a surviving element" (a contract clause the spec decides, stable key), not as
+    # a sanitizer abort whose shape depends on what the stale memory happens to contain
+    binary = build_harness("pdf", needs_lib=False, san=None)
+    tpath = os.path.join(WORK, "c12-trace-nonrep-%d.ndjson" % i)
+    if os.path.exists(tpath):
+        os.remove(tpath)
+    rc, out, err = run_cmd([binary, "record", tpath, str(nops), "nonrep"], timeout=1200,
+                           env={"VERIF_SEED": str(seed)})
+    r = {"i": i, "variant": "nonrep", "path": tpath, "rc": rc, "out": out[-1500:], "err": err[:3000]}
+    if rc != 0:
+        return r
+    acc, prefix, found = _validate_collect(APPROX_SPEC, tpath, timeout=3000)
+    evs = vlib.read_ndjson(tpath)
+    st = {"events": len(evs), "executions": 0, "regimes": {}, "Sample": 0, "interior_samples": 0,
+          "near_one_samples": 0, "Remove": 0, "Update": 0, "Add": 0, "states_with_zero_weight": 0}
+    for e in evs:
+        if e["e"] == "Reset":
+            st["executions"] += 1
+            st["regimes"][e["regime"]] = st["regimes"].get(e["regime"], 0) + 1
+        elif e["e"] == "Sample":
+            st["Sample"] += 1
+            st["interior_samples"] += e["interior"]
+            st["near_one_samples"] += e["interior"] == 1 and e["lo"] == 15
+        else:
+            st[e["e"]] = st.get(e["e"], 0) + 1
+            st["states_with_zero_weight"] += 0 in e["ws"] and any(w > 0 for w in e["ws"])
+    r.update(accepted=acc, prefix=prefix, stats=st, findings=found)
+    return r
+
+
 # ------------------------------------------------------------------ result handling
 
 def _asan_kind(text):
-    m = re.search(r"AddressSanitizer: ([\w-]+)", text) or re.search(r"runtime error: ([\w -]+?)[:\n]", text)
-    return m.group(1).strip().replace(" ", "-") if m else "abort"
+    m = re.search(r"AddressSanitizer: (?:attempting )?([\w-]+)", text)
+    if m:
+        return m.group(1)
+    m = re.search(r"runtime error: ([a-z ]+)", text)
+    if m:
+        return "-".join(m.group(1).split()[:5])
+    if "uncaught" in text:
+        return "uncaught-exception"
+    m = re.search(r"CRASH (SIG\w+)", text)
+    if m:
+        return m.group(1)
+    return "abort"
 
 
 def _handle_replay(ck, dump, results):
@@ -171,9 +242,13 @@ def _handle_replay(ck, dump, results):
                 rp = ck.replay_file("graph-%s.ndjson" % label)
                 shutil.copyfile(gpath, rp)
                 kind = _asan_kind(err + out)
+                where = (_parse_all(out, "CRASHWHERE") or [{}])[0].get("scenario", [])
+                if where:
+                    ck.replay_file("crash-scenario-%s.json" % label, json.dumps(where, indent=1))
                 ck.violation("crash:replay:" + kind,
                              "pdf harness crashed / sanitizer abort (%s) while replaying specification scenarios "
-                             "of %s: %s" % (kind, label, (err or out)[-900:]), rp)
+                             "of %s; the scenario being executed: %s; %s"
+                             % (kind, label, json.dumps(where), (err or out)[:700]), rp)
                 return
             raise FrameworkError("pdf replay produced no summary (rc=%s): %s" % (rc, (out + err)[-2000:]))
         for k in tot:
@@ -213,8 +288,10 @@ def _handle_trace(ck, r, first):
         else:
             open(rp, "w").close()
         kind = _asan_kind(r["err"] + r["out"])
-        ck.violation("crash:record:" + kind, "PDF crashed / sanitizer abort (%s) under a random history (%s): %s"
-                     % (kind, variant, (r["err"] or r["out"])[-900:]), rp)
+        where = (_parse_all(r["out"], "CRASHWHERE") or [{}])[0].get("op", "?")
+        ck.violation("crash:record:" + kind, "PDF crashed / sanitizer abort (%s) under a random history (%s) in or "
+                     "right after %s (the trace up to there is the replay file): %s"
+                     % (kind, variant, where, (r["err"] or r["out"])[:700]), rp)
         return
     st = r["stats"]
     ck.add("trace_events", st["events"])
@@ -242,6 +319,54 @@ def _handle_trace(ck, r, first):
                         json.dumps(next((e for e in reversed(evs[:prefix]) if "ord" in e), {}))), rp)
 
 
+def _handle_nonrep(ck, r):
+    name = "trace-nonrep-%d.ndjson" % r["i"]
+    tpath = r["path"]
+    if r["rc"] != 0:
+        rp = ck.replay_file(name)
+        if os.path.exists(tpath):
+            shutil.copyfile(tpath, rp)
+        else:
+            open(rp, "w").close()
+        kind = _asan_kind(r["err"] + r["out"])
+        where = (_parse_all(r["out"], "CRASHWHERE") or [{}])[0].get("op", "?")
+        ck.violation("crash:record-nonrep:" + kind, "PDF crashed (%s) under a history with non-representable "
+                     "weights in or right after %s: %s" % (kind, where, (r["err"] or r["out"])[:700]), rp)
+        return
+    st = r["stats"]
+    ck.add("nonrep_trace_events", st["events"])
+    ck.add("nonrep_samples", st["Sample"])
+    if not r["accepted"]:
+        rp = ck.replay_file(name)
+        shutil.copyfile(tpath, rp)
+        evs = vlib.read_ndjson(tpath)
+        prefix = r["prefix"]
+        bad = evs[prefix] if prefix is not None and prefix < len(evs) else {}
+        ck.violation("trace:nonrep:%s" % bad.get("e"),
+                     "recorded PDF execution (non-representable weights) rejected by PDFContract at event %d of "
+                     "%d: %s" % (prefix + 1, len(evs), json.dumps(bad)), rp)
+        return
+    missing = [k for k in ("Add", "Update", "Remove", "interior_samples", "near_one_samples",
+                           "states_with_zero_weight") if st[k] == 0]
+    missing += [g for g in ("decimal", "ratio", "tiny") if g not in st["regimes"]]
+    if missing:
+        raise FrameworkError("vacuity gate: non-representable trace %s never exercised %s" % (name, missing))
+    ck.add("traces_validated_against_impl", st["executions"])
+    by = {}
+    for f in r["findings"]:
+        by.setdefault(f["finding"], []).append(f)
+    for cls in sorted(by):
+        fs = by[cls]
+        ck.add("nonrep_findings_" + cls, len(fs))
+        rp = ck.replay_file(name)
+        shutil.copyfile(tpath, rp)
+        f = fs[0]
+        ck.violation("nonrep:" + cls,
+                     "%d sample(r) calls in a history with non-representable weights break the contract clause "
+                     "'%s'; first at trace line %d: %s with elements (fixed-point weights, 0 = exactly zero) %s"
+                     % (len(fs), cls, f["line"], json.dumps(f["sample"]), json.dumps(f["listing"])), rp)
+
+
 GATE = ["add_new_head", "add_no_new_head", "update", "clear_nonempty", "remove_single", "remove_last",
         "remove_swap_general", "remove_sibling", "remove_sibling_deep", "remove_row_shrink", "remove_head_drop",
         "remove_no_head_drop", "boundary_r", "zero_weight_states", "zero_total_states"]
@@ -252,8 +377,10 @@ def run(tier):
     ck.assumptions += ["weights are non-negative (add() rejects negative ones)",
                        "sample() is called on a non-empty structure with r in [0,1] (documented preconditions)",
                        "the zero-weight clause presumes total weight > 0; with total 0 any element may be returned",
-                       "exact agreement is required for exactly representable weights: integer weights and "
-                       "dyadic r only (no non-representable weights in this check, see report)",
+                       "exact agreement is required only for exactly representable weights (integer weights, "
+                       "dyadic r); for non-representable weights the cumulative interval is checked up to the "
+                       "rigorous rounding slack logged by the recorder, the zero-weight and in-storage clauses "
+                       "exactly",
                        "element order is whatever getElements() reports; the contract does not prescribe it"]
     binary = build_harness("pdf", needs_lib=False, san="asan")
     W4, W3, W2 = (0, 1, 2, 3), (0, 1, 2), (0, 1)
@@ -261,17 +388,23 @@ def run(tier):
         mcs = [("mc-6x4", W4, 6), ("mc-9x2", W2, 9)]
         dumps = [("dump-5x4", W4, 5, "pairs", 2000, 6), ("dump-9x2", W2, 9, "edges", 1000, 1)]
         rec = [("small", 5000), ("mixed", 5000), ("ctor", 5000)]
+        nonrep = [3000]
     else:
         mcs = [("mc-7x4", W4, 7), ("mc-10x3", W3, 10), ("mc-13x2", W2, 13)]
         dumps = [("dump-6x4", W4, 6, "pairs", 20000, 12), ("dump-7x3", W3, 7, "pairs", 10000, 8),
                  ("dump-9x2", W2, 9, "pairs", 10000, 4), ("dump-12x2", W2, 12, "edges", 10000, 1)]
         rec = [("small", 40000), ("mixed", 40000), ("ctor", 40000)] * 3
+        nonrep = [20000] * 3
     with ProcessPoolExecutor(max_workers=vlib.NCPU) as ex:
         # everything that does not depend on anything else starts now
         mcf = [(name, ex.submit(_job_mc, name, w, n, max(2, vlib.NCPU // 2))) for name, w, n in mcs]
         dumpf = [(d, ex.submit(_job_dump, d[0], d[1], d[2])) for d in dumps]
         tracef = [ex.submit(_job_trace, binary, i, variant, nops, vlib.seed() * 131 + i)
                   for i, (variant, nops) in enumerate(rec)]
+        if os.environ.get("VERIF_C12_NONREP", "1") == "0":
+            nonrep = []
+            ck.assumptions.append("VERIF_C12_NONREP=0: histories with non-representable weights were skipped")
+        nonrepf = [ex.submit(_job_nonrep, i, nops, vlib.seed() * 257 + i) for i, nops in enumerate(nonrep)]
         # 1. exhaustive model check of the implementation-shaped spec against the contract
         for name, f in mcf:
             res = f.result()
@@ -298,6 +431,9 @@ def run(tier):
         # 3. recorded random histories validated against the contract
         for i, f in enumerate(tracef):
             _handle_trace(ck, f.result(), i == 0)
+        # 4. histories with non-representable weights
+        for f in nonrepf:
+            _handle_nonrep(ck, f.result())
     return ck.finish()
 
 
@@ -363,14 +499,78 @@ def selftest():
         vlib.write_ndjson(p, ev)
         acc, prefix, _ = validate_trace(TRACE_SPEC, p)
         ok = (not acc) and prefix == at
-        print("%-40s line %5d: %s" % (name, at + 1, "rejected there" if ok else "NOT rejected at that line"))
+        print("%-55s line %5d: %s" % (name, at + 1, "rejected there" if ok else "NOT rejected at that line"))
         bad += not ok
+    # the fixed-point trace spec: a grossly wrong element must be reported as an interval finding
+    # (the clause with slack is not vacuous), a wrong listing must block the trace
+    plain = build_harness("pdf", needs_lib=False, san=None)
+    npath = os.path.join(WORK, "c12-selftest-nonrep.ndjson")
+    rc, out, err = run_cmd([plain, "record", npath, "1500", "nonrep"], env={"VERIF_SEED": "7"})
+    if rc != 0:
+        raise FrameworkError("record nonrep failed: " + err[-500:])
+    nev = vlib.read_ndjson(npath)
+    acc, _, found = _validate_collect(APPROX_SPEC, npath)
+    flagged = {f["line"] for f in found}
+    print("unmodified non-representable trace: %s, %d line(s) with findings" % ("accepted" if acc else "REJECTED", len(flagged)))
+    bad += not acc
+
+    def far_element(ev):
+        for i, e in enumerate(ev):
+            if e["e"] == "Sample" and (i + 1) not in flagged and e["lo"] == e["hi"] == 8:
+                cur = listing(ev, i)
+                tot = sum(w for _, w in cur)
+                pre = 0
+                for u, w in cur:
+                    # an element whose whole interval lies far above r * total = total / 2
+                    if w > 0 and u != e["id"] and pre > tot // 2 + tot // 8 + 64:
+                        e["id"] = u
+                        return i
+                    pre += w
+
+    def fixed_weight_wrong(ev):
+        for i, e in enumerate(ev):
+            if i > 200 and e["e"] == "Update" and e["n"] > 2:
+                e["ws"][0] += 5
+                return i
+
+    ev = json.loads(json.dumps(nev))
+    at = far_element(ev)
+    if at is None:
+        raise FrameworkError("selftest: no place to apply the far-element corruption")
+    p = os.path.join(WORK, "c12-selftest-corrupt.ndjson")
+    vlib.write_ndjson(p, ev)
+    acc, _, found = _validate_collect(APPROX_SPEC, p)
+    ok = acc and any(f["line"] == at + 1 and f["finding"] == "interval-beyond-rounding-bound" for f in found)
+    print("%-55s line %5d: %s" % ("non-representable: element far from r*total returned", at + 1,
+                                  "reported as interval finding" if ok else "NOT reported"))
+    bad += not ok
+    ev = json.loads(json.dumps(nev))
+    at = fixed_weight_wrong(ev)
+    vlib.write_ndjson(p, ev)
+    acc, prefix, _ = validate_trace(APPROX_SPEC, p)
+    ok = (not acc) and prefix == at
+    print("%-55s line %5d: %s" % ("non-representable: listed weight wrong", at + 1,
+                                  "rejected there" if ok else "NOT rejected at that line"))
+    bad += not ok
     return 1 if bad else 0
 
 
 def replay(path):
     """Re-execute a replay artefact: a trace (.ndjson with 'trace' in its name) is re-validated by
     TLC against PDFContract, a state graph is re-replayed on the real PDF."""
+    if path.endswith(".ndjson") and "trace-nonrep" in os.path.basename(path):
+        acc, prefix, found = _validate_collect(APPROX_SPEC, path)
+        if not acc:
+            evs = vlib.read_ndjson(path)
+            print("REJECTED at event %d: %s" % (prefix + 1, json.dumps(evs[prefix]) if prefix < len(evs) else "?"))
+            return 1
+        by = {}
+        for f in found:
+            by.setdefault(f["finding"], []).append(f)
+        for cls in sorted(by):
+            print("FINDING %s x%d, first: %s" % (cls, len(by[cls]), json.dumps(by[cls][0])))
+        print("accepted as a history; %d sample(s) break the contract" % sum(len(v) for v in by.values()))
+        return 1 if by else 0
     if path.endswith(".ndjson") and "trace" in os.path.basename(path):
         acc, prefix, res = validate_trace(TRACE_SPEC, path)
         if acc:
